@@ -190,3 +190,24 @@ func VerifLemma_C03G_MessageRules() {
 	}
 	verifAssert(rw2.n == want, "MESSAGE_SAME_REQUIRED_FIELDS: exactly one annotation per changed required number")
 }
+
+// VerifLemma_C03G_EnumSameType: ENUM_SAME_TYPE reports (once, at the enum_type feature or else the enum) exactly
+// when an enum changes between open and closed.
+func VerifLemma_C03G_EnumSameType() {
+	prev := &vbEnum{name: "E", closed: verifNondetBool(), hasEnumTypeLoc: verifNondetBool()}
+	cur := &vbEnum{name: "E", closed: verifNondetBool(), hasEnumTypeLoc: verifNondetBool()}
+	rw := &vRW{}
+	err := handleBreakingEnumSameType(rw, vReq{}, cur, prev)
+	verifAssert(err == nil, "enum type handler returns no error")
+	verifCover("enum type handler returned")
+	if prev.closed != cur.closed {
+		verifCover("enum changed between open and closed")
+		want := "enum"
+		if cur.hasEnumTypeLoc {
+			want = "enumtype"
+		}
+		verifAssert(rw.n == 1 && rw.vbHas(want, cur), "ENUM_SAME_TYPE reports the change at the enum_type feature (or the enum)")
+	} else {
+		verifAssert(rw.n == 0, "ENUM_SAME_TYPE silent when open/closed is unchanged")
+	}
+}
